@@ -146,7 +146,7 @@ package hap
 
 // every encrypted write takes the frame counter and reaches the socket under the connection's write mutex (C08; static
 // dominance check on the real SSA, see DESIGN.md: interleavings themselves are not explored)
-//@ locked C08 (*github.com/brutella/hc/hap.Connection).EncryptedWrite field writeMutex calls Encrypt, Write
+//@ locked C08 (*github.com/brutella/hc/hap.Connection).EncryptedWrite field writeMutex calls Encrypter.Encrypt, Conn.Write
 
 // assumed: curEnc is defined as what getEncrypter returns (a read of the context map and the session)
 //@ func (con *Connection) getEncrypter() (e)
